@@ -87,6 +87,15 @@ CLAIMED = {
         'pool threads to be finished when iteration ends.',
         'Bounded: <=3 workers, <=3 source items. The executor is the harness-managed one (max_workers honoured, shutdown(wait) joins).',
         '5/C13'),
+    'C15': (
+        'property-level TLA+ spec Prefetch.tla of the client-visible prefetch protocol, model-checked by TLC; executions of the real PrefetchedCourierServer handlers under the deterministic scheduler are recorded and validated by TLC against Trace_Prefetch.tla (code -> spec)',
+        'TLC checks ordering, failure prefix, single end marker and completeness on the specification; for every scenario (prefetch 1-2, batch 1-3, generator '
+        'length 0-3, every failure position, shutdown, overlapping re-initialisation, request without generator) the real request handlers and prefetch thread '
+        'run under seeded schedules, each protocol event (install, yield, generator end, thread end, call/return of init and next-batch, shutdown) is logged in '
+        'execution order and the trace must be a behaviour of the specification; a stuck execution is reported from the scheduler\'s enabled-set. A corrupted '
+        'and a thinned trace are shown to be rejected on every run.',
+        'Handlers are invoked directly (no transport). Schedules are sampled (seeded), not exhaustive.',
+        '5/C15'),
 }
 
 PENDING = {}
